@@ -19,7 +19,7 @@ from sa.interp import Interp, Scenario, Sym, Const, Bytes, Enum, render, render_
 from sa.loader import AnalysisError
 from sa.sigdata import enum_const
 from sa import families, taint
-from sa.taint import run_roles, norm_term, split_items, split_args, concat_parts, int_equiv
+from sa.taint import run_roles, norm_term, split_items, split_args, concat_parts, int_equiv, bind_call, call_text
 
 KEYSUM = 'sum(symkey)'
 BITS = [64, 128, 192, 256]
@@ -148,7 +148,7 @@ def seipd(rep, prog):
         its = split_items(a[0])
         mdcs = [n for n in taint.objects(s) if taint.obj_of_class(s, n, 'MDC')]
         ser = ['%s.__bytes__()' % n for n in mdcs] + ['%s.__bytearray__()' % n for n in mdcs]
-        ok = len(mdcs) == 1 and its[:3] == PREFIX and len(its) == 4 and its[3] in ser
+        ok = len(mdcs) == 1 and its[:3] == PREFIX and len(its) == 4 and its[3] in ser and len(taint.draws(s, 'gen_iv')) == 1
         rep.check(ok and a[1] == 'key' and a[2] == 'alg' and (a[3] in (None, 'None')) and not enc[0][2], 'C03.2', W, 'plaintext %s' % a[0],
                   'plaintext = random block || its last two octets || data || MDC packet, encrypted under (key, alg) with zero IV',
                   where=fi.where, expected=' '.join(PREFIX) + ' <MDC>.__bytes__()', found=enc[0][1])
@@ -265,18 +265,21 @@ def symenc(rep, prog):
             if ok:
                 s = rets[0]
                 ctor = [c for c in s.calls if c[0] == 'Cipher']
-                ok = len(ctor) == 1 and not ctor[0][2] and len(ctor[0][1]) == 3 and ctor[0][1][0] == 'alg.cipher(key)' and \
-                    ctor[0][1][2] == 'default_backend()'
-                mode = split_args(ctor[0][1][1]) if ok else None
-                ok = ok and mode is not None and mode[0] == 'modes.CFB' and len(mode[1]) == 1
+                ca = bind_call(ctor[0], ['algorithm', 'mode', 'backend']) if len(ctor) == 1 else {}
+                ok = len(ctor) == 1 and set(ca) == {'algorithm', 'mode', 'backend'} and ca['algorithm'] == 'alg.cipher(key)' and \
+                    ca['backend'] == 'default_backend()'
+                mcall = [c for c in s.calls if c[0] == 'modes.CFB' and call_text(c) == ca.get('mode')]
+                ok = ok and len(mcall) == 1
+                ma = bind_call(mcall[0], ['initialization_vector']) if ok else {}
+                ok = ok and set(ma) == {'initialization_vector'}
                 if ok and ivgiven:
-                    ok = mode[1][0] == 'iv'
+                    ok = ma['initialization_vector'] == 'iv'
                 elif ok:
-                    z = mode[1][0]
+                    z = ma['initialization_vector']
                     ok = z.startswith('REP(C(00);') and z.endswith(')') and \
                         int_equiv(z[len('REP(C(00);'):-1], lambda B: B // 8, {'alg.block_size': ('B', BITS)}) is True
                 if ok:
-                    Cc = 'Cipher(%s).%s()' % (', '.join(ctor[0][1]), kind)
+                    Cc = '%s.%s()' % (call_text(ctor[0]), kind)
                     ok = concat_parts(render(s.ret)) == ['%s.update(%s)' % (Cc, arg), '%s.finalize()' % Cc]
                     found = [render(s.ret).replace(Cc, 'CIPHER')]
             rep.check(ok, 'C03.4', name, '%s: %s' % (scen, [x[:120] for x in found]),
@@ -327,22 +330,24 @@ def ecdh(rep, prog):
                 continue
             dk = [c for c in s.calls if c[0].endswith('.derive_key')]
             scen = '%s; %s' % (which, '; '.join('%s=%s' % (x[0], x[1]) for x in s.facts))
-            ok = len(dk) == 1 and dk[0][0] == 'pk.keymaterial.kdf.derive_key' and not dk[0][2] and \
-                dk[0][1][1:] == ['pk.keymaterial.oid', 'PubKeyAlgorithm.ECDH', 'pk.fingerprint'] and \
-                (split_args(dk[0][1][0]) or ('',))[0].endswith('.exchange')
-            rep.check(ok, 'C03.5', 'ECDHCipherText.%s' % which, 'derive_key(%s)' % (dk[0][1][1:] if dk else None),
+            da = bind_call(dk[0], ['s', 'curve', 'pkalg', 'fingerprint']) if len(dk) == 1 else {}
+            ok = len(dk) == 1 and dk[0][0] == 'pk.keymaterial.kdf.derive_key' and set(da) == {'s', 'curve', 'pkalg', 'fingerprint'} and \
+                [da['curve'], da['pkalg'], da['fingerprint']] == ['pk.keymaterial.oid', 'PubKeyAlgorithm.ECDH', 'pk.fingerprint'] and \
+                (split_args(da['s']) or ('',))[0].endswith('.exchange')
+            rep.check(ok, 'C03.5', 'ECDHCipherText.%s' % which, 'derive_key(%s)' % (da or None),
                       'both directions must derive the KEK from (shared secret, recipient curve, ECDH id, recipient fingerprint) '
                       'with the recipient key\'s own KDF parameters', where=f.where, scenario=scen)
             pad = [c for c in s.calls if c[0] == 'PKCS7']
-            rep.check(len(pad) == 1 and (pad[0][1] == ['64'] and not pad[0][2] or (not pad[0][1] and pad[0][2] == {'block_size': '64'})), 'C03.5',
+            rep.check(len(pad) == 1 and bind_call(pad[0], ['block_size']) == {'block_size': '64'}, 'C03.5',
                       'ECDHCipherText.%s' % which, 'PKCS7(%s)' % (pad[0][1] if pad else None),
                       'the m-value is PKCS#5 padded to a multiple of 8 octets', where=f.where, scenario=scen)
-            P = 'PKCS7(64)' if not (pad and pad[0][2]) else 'PKCS7(block_size=64)'
+            P = call_text(pad[0]) if pad else 'PKCS7(64)'
+            KEK = call_text(dk[0]) if dk else '?'
             if which == 'encrypt':
                 w = [c for c in s.calls if c[0] == 'aes_key_wrap']
                 ok = len(w) == 1 and len(w[0][1]) >= 2 and \
                     concat_parts(w[0][1][1]) == ['%s.padder().update(m)' % P, '%s.padder().finalize()' % P] and \
-                    w[0][1][0].startswith('pk.keymaterial.kdf.derive_key(')
+                    w[0][1][0] == KEK
                 rep.check(ok, 'C03.5', 'ECDHCipherText.encrypt', 'aes_key_wrap(kek, padded m)', 'C = AESKeyWrap(Z, padded m)', where=f.where,
                           scenario=scen, found=w[0][1][1] if w else None)
                 cst = [v for p, v, l, _ in s.stores if p.endswith('.c')]
@@ -350,7 +355,7 @@ def ecdh(rep, prog):
                           where=f.where, scenario=scen)
             else:
                 w = [c for c in s.calls if c[0] == 'aes_key_unwrap']
-                ok = len(w) == 1 and len(w[0][1]) >= 2 and w[0][1][1] == 'self.c' and w[0][1][0].startswith('pk.keymaterial.kdf.derive_key(')
+                ok = len(w) == 1 and len(w[0][1]) >= 2 and w[0][1][1] == 'self.c' and w[0][1][0] == KEK
                 U = 'aes_key_unwrap(%s)' % ', '.join(w[0][1]) if w else ''
                 ok = ok and concat_parts(render(s.ret)) == ['%s.unpadder().update(%s)' % (P, U), '%s.unpadder().finalize()' % P]
                 rep.check(ok, 'C03.5', 'ECDHCipherText.decrypt', 'unpad(aes_key_unwrap(kek, C))', 'm = unpad(AESKeyUnwrap(Z, C)) - the inverse of encrypt',
